@@ -137,6 +137,28 @@ def run_shard(spec, res):
             if anns:
                 annotate = lambda a, anns=anns: c24.annotate(a, anns)  # noqa: E731
                 res.count("annotated_histories")
+                # what-if queries the abstract domain can refute outright (a value outside a declared range), each
+                # followed by the same questions without the extra constraint: nothing of the what-if may stay behind
+                from vf.ref import sigamma as SG
+
+                for name, (w_, t) in list(anns.items())[:2]:
+                    outside = [v for v in range(1 << w_) if not SG.member(t, v)]
+                    if not outside:
+                        continue
+                    x_ = ["bvs", name, w_]
+                    v = rng.choice(outside)
+                    what_if = rng.choice([[["eq", x_, ["bvv", v, w_]]], [["eq", x_, ["bvv", v, w_]], ["ule", x_, ["bvv", (1 << w_) - 1, w_]]]])
+                    if t[2] <= t[3] and t[3] < (1 << w_) - 1 and rng.random() < 0.5:
+                        what_if = [["ugt", x_, ["bvv", t[3], w_]]]
+                    pos = rng.randrange(0, len(steps) + 1)
+                    probe = [
+                        {"op": rng.choice(["satisfiable", "satisfiable", "solution", "eval"]), "s": 0, "extra": what_if, "e": x_, "n": 3, "v": v},
+                        {"op": "satisfiable", "s": 0, "extra": []},
+                        {"op": "eval", "s": 0, "e": x_, "n": 70, "extra": []},
+                        {"op": "max", "s": 0, "e": x_, "signed": False, "extra": []},
+                    ]
+                    steps[pos:pos] = probe
+                    res.count("refutable_what_if_probes")
         cfg = {"cls": cfgname, "reuse": int(spec["env"]["REUSE_Z3_SOLVER"]), "annotations": {n: list(t) for n, (w, t) in anns.items()}}
         before = res.counters.get("answers_judged", 0)
         run = c11.run_history(res, al_vars, steps, lambda: make_solver(cfgname), cfg, keep, mode="exact" if exact else "approx", pid=PID, qkw=qkw, annotate=annotate, ref_cons=ref_cons)
